@@ -696,7 +696,7 @@ func TestC06(t *testing.T) {
 		"entitlement sets compatible with it). B (programs, both engines): generated contracts with mapped fields / mapped accessors / entitled members, nested two "+
 		"levels; for a reference auth(A1) every upcast target the checker accepts must agree with the model (also the run-time `as?`), and every member chain "+
 		"(calls of access(E..) functions, failable downcasts of the derived reference) accepted and allowed through the upcast must be accepted and give the same "+
-		"result through the original. Non-trivial: a disjunction is involved, or the mapping has images of different sizes (incl. empty), or the chain goes through "+
+		"result through the original. C (containers, both engines): generated values nesting authorized references at depth 1-3 inside variable-/constant-sized arrays, dictionaries, optionals, struct fields and references to containers, accessed through an outer reference with each authorization; for every extraction path (index, for-in, removeFirst/removeLast/remove(at:), slice, reverse, toVariableSized, dictionary lookup/remove/insert/values, field read) every reference in the checker's result type, and the innermost reference actually obtained at run time, must grant no more than the outer authorization and no more than its declared authorization. Non-trivial: a disjunction is involved, or the mapping has images of different sizes (incl. empty), or the chain goes through "+
 		"a mapped member. Distinct by (part, map, inputs / universe, A1, A2, chain).")
 	c := newC06(t, rec)
 
@@ -736,6 +736,9 @@ func TestC06(t *testing.T) {
 	if os.Getenv("VERIF_C06_PART") == "B" {
 		return
 	}
+	requireClasses(t, rec, "container/path:removeFirst", "container/path:remove(key:)", "container/path:insert", "container/path:index", "container/path:field",
+		"container/path:for-in", "container/path:toVariableSized", "container/has:constarray", "container/has:nested-reference", "container/has:dictionary",
+		"container/run:interpreter", "container/run:vm", "container/run:entitlement-survives")
 	requireClasses(t, rec, "image/disj->unauth", "image/disj->disj", "image/conj->conj", "image/unrepresentable", "image-include/depth2",
 		"program/chain:both-accepted", "program/chain:both-rejected", "program/chain:only-original", "program/upcast-accepted=true",
 		"program/run:interpreter", "program/run:vm")
